@@ -252,10 +252,89 @@ Definition pkcs7Padding_mem (h : heap) (src : slice) : heap * slice :=
   let h2 := copy_into h1 out (read h1 src) in
   append h2 out padtext.
 
-(* a helper called with [in] living in the caller's memory: the heap afterwards and the result *)
-Definition helper_mem (core : pkg -> list byte -> list byte -> bool -> outcome (list byte))
-           (p : pkg) (h : heap) (key : list byte) (in_ : slice) (mode : bool) : heap * outcome (list byte) :=
-  if negb (Nat.eqb (length key) 16) then (h, Err 1)
-  else if mode then
-    let '(h', padded) := pkcs7Padding_mem h in_ in (h', core p key (read h' padded) mode)
-  else (h, core p key (read h in_) mode).
+(* ---------- the helpers with [in] in the caller's memory --------------------------------------------------------- *)
+(* The writes of the four helpers: out = make([]byte, len(inData)) and copy(out[i*16:i*16+16], x) in every
+   iteration are modelled on the heap (below); the other destinations - iv := make(..); copy(iv, IV), out_tmp,
+   K, cipherBlock, plainBlock, shiftIV - are made inside the helper and only rebound or overwritten there, and are
+   modelled on values.  In every iteration the input block is read from the CURRENT heap: if out were not a new
+   array (e.g. out = inData) the results and the caller's array would change.                                     *)
+
+(* out[i*16 : i*16+16] *)
+Definition window (out : slice) (i : nat) : slice :=
+  mkSlice (s_arr out) (s_off out + 16 * i) 16 (s_cap out - 16 * i).
+
+(* the loop of a helper on the heap: [step h i st] computes iteration i from what the heap holds now *)
+Fixpoint for_loop_mem {St : Type} (step : heap -> nat -> St -> outcome (St * list byte)) (n i : nat) (st : St)
+         (h : heap) (out : slice) : outcome heap :=
+  match n with
+  | O => Ok h
+  | S n' => do '(st', o) <- step h i st; for_loop_mem step n' (S i) st' (copy_into h (window out i) o) out
+  end.
+
+(* out = make([]byte, len(inData)); the loop; the heap afterwards and what out holds.
+   [mk inData] is the body of the loop as a function of the bytes of inData *)
+Definition run_loop_mem {St : Type} (mk : list byte -> nat -> St -> outcome (St * list byte)) (st0 : St)
+           (h : heap) (in_ : slice) : outcome (heap * list byte) :=
+  let '(h1, out) := make h (s_len in_) (s_len in_) in
+  do h2 <- for_loop_mem (fun hh => mk (read hh in_)) (s_len in_ / 16) 0 st0 h1 out;
+  Ok (h2, read h2 out).
+
+Definition then_unpad (r : outcome (heap * list byte)) : outcome (heap * list byte) :=
+  do '(h2, out) <- r; do o <- unpad_or_nil out; Ok (h2, o).
+
+Section CipherMem.
+  Variables E D : list byte -> list byte -> list byte.
+
+  Definition Sm4Cbc_core_mem (p : pkg) (key : list byte) (h : heap) (in_ : slice) (mode : bool) : outcome (heap * list byte) :=
+    let iv := firstn 16 (IV p ++ zeros16) in
+    let enc := E key in let dec := D key in
+    if mode then
+      run_loop_mem (fun inData i iv =>
+                  let in_tmp := xor (blk inData i) iv in
+                  do out_tmp <- block_call enc in_tmp;
+                  Ok (out_tmp, out_tmp)) iv h in_
+    else
+      then_unpad (run_loop_mem (fun inData i iv =>
+                  let in_tmp := blk inData i in
+                  do out_tmp <- block_call dec in_tmp;
+                  let out_tmp := xor out_tmp iv in
+                  Ok (in_tmp, out_tmp)) iv h in_).
+
+  Definition Sm4Ecb_core_mem (p : pkg) (key : list byte) (h : heap) (in_ : slice) (mode : bool) : outcome (heap * list byte) :=
+    let enc := E key in let dec := D key in
+    if mode then
+      run_loop_mem (fun inData i (_ : unit) => do out_tmp <- block_call enc (blk inData i); Ok (tt, out_tmp)) tt h in_
+    else
+      then_unpad (run_loop_mem (fun inData i (_ : unit) => do out_tmp <- block_call dec (blk inData i); Ok (tt, out_tmp)) tt h in_).
+
+  Definition Sm4CFB_core_mem (p : pkg) (key : list byte) (h : heap) (in_ : slice) (mode : bool) : outcome (heap * list byte) :=
+    let enc := E key in
+    if mode then
+      run_loop_mem (fun inData i cipherBlock =>
+                  do K <- block_call enc (if Nat.eqb i 0 then IV p else cipherBlock);
+                  let cipherBlock := xor (firstn 16 K) (blk inData i) in
+                  Ok (cipherBlock, cipherBlock)) zeros16 h in_
+    else
+      then_unpad (run_loop_mem (fun inData i (_ : unit) =>
+                  do K <- block_call enc (if Nat.eqb i 0 then IV p else blk inData (i - 1));
+                  let plainBlock := xor (firstn 16 K) (blk inData i) in
+                  Ok (tt, plainBlock)) tt h in_).
+
+  Definition Sm4OFB_core_mem (p : pkg) (key : list byte) (h : heap) (in_ : slice) (mode : bool) : outcome (heap * list byte) :=
+    let enc := E key in
+    if mode then run_loop_mem (ofb_step enc p) zeros16 h in_
+    else then_unpad (run_loop_mem (ofb_step enc p) zeros16 h in_).
+
+  (* the part all four share, with [in] in the caller's heap: the heap afterwards and the result *)
+  Definition helper_mem (core_mem : pkg -> list byte -> heap -> slice -> bool -> outcome (heap * list byte))
+             (p : pkg) (h : heap) (key : list byte) (in_ : slice) (mode : bool) : outcome (heap * list byte) :=
+    if negb (Nat.eqb (length key) 16) then Err 1
+    else if mode then
+      let '(h', padded) := pkcs7Padding_mem h in_ in core_mem p key h' padded mode
+    else core_mem p key h in_ mode.
+
+  Definition Sm4Cbc_mem := helper_mem Sm4Cbc_core_mem.
+  Definition Sm4Ecb_mem := helper_mem Sm4Ecb_core_mem.
+  Definition Sm4CFB_mem := helper_mem Sm4CFB_core_mem.
+  Definition Sm4OFB_mem := helper_mem Sm4OFB_core_mem.
+End CipherMem.
